@@ -76,7 +76,8 @@ PROPS = {
         technique="bounded-exhaustive enumeration of (own RA, received RA) pairs over a small value domain per aspect, received side through the wire codec, against a reference list of inconsistencies; on verifyRAs and through Advertiser.handle",
         text="For each of 11 compared aspects the full product of absent/equal/different values (both directions) is enumerated with the other aspects equal (quick), and for all pairs of aspects the product of both (thorough). The received RA always passes through encode/decode so identity can never stand in for equality. The multiset of (field, details) reported by verifyRAs, the log lines, the inconsistencies_total increments and the hook are compared with a reference computed from the statement.",
         note="Whole-second lifetimes only (sub-second own lifetimes legitimately differ from their wire form). Hop-limit difference with one side 0 is a don't-care.",
-        parts=[part("pairs", "internal/corerad", "TestVerifC12", shards={"quick": 2, "thorough": 16})],
+        parts=[part("pairs", "internal/corerad", "TestVerifC12", shards={"quick": 2, "thorough": 16}),
+               part("sequence", "internal/corerad", "TestVerifC12Seq")],
     ),
     "C05": dict(
         level="exploration", engine="enum",
